@@ -170,7 +170,7 @@ __CPROVER_ensures((!g_bt_present && $this->%(t)s.wi == @N0) ==> %(eq)s)
 
 
 ACC_STUBS = ['BlockTable_[A-Za-z]+__(size|op_index|find|add|add_value__p_[A-Za-z]+)', 'seq_[A-Za-z0-9_]+__(assign|size)', 'cstring__[a-z]+']
-ACC_AUTO = [r'[A-Za-z]+__ctor__\\w+', r'[A-Za-z]+__default']
+ACC_AUTO = [r'[A-Za-z]+__ctor__\w+', r'[A-Za-z]+__default']
 for nm, tab, rec, sub in ACCESS:
     argt = {'data': 'cstring', 'list': 'struct seq_u32'}.get(sub, 'struct ' + rec)
     UNITS.append(Unit('blk.get_' + nm, ('CdnsBlock::get_' + nm, None), contract=get_contract(tab, rec, sub), prelude=P, pre_c=PRE_C, extern_records=EXT, stubs=ACC_STUBS,
@@ -203,7 +203,8 @@ __CPROVER_ensures(g_exc == 0 && $ret == $this)
               '__CPROVER_ensures(%(b)sm_block_parameters.storage_parameters.ticks_per_second == %(r)sm_block_parameters.storage_parameters.ticks_per_second)\n'
               '__CPROVER_ensures(%(b)sm_query_responses.wv.time_offset.has == %(r)sm_query_responses.wv.time_offset.has && %(b)sm_query_responses.wv.client_port.val == %(r)sm_query_responses.wv.client_port.val)\n') % {'b': b, 'r': r}
         if read:
-            c += '__CPROVER_ensures($this == $1 || ($this->m_qr_read == 0 && $this->m_mm_read == 0 && ($this->m_aec_read == 0 || $this->m_aec_read == &umap_AddressEventCount_u64__cur)))\n'
+            c += ('__CPROVER_ensures($this == $1 || ($this->m_qr_read == 0 && $this->m_mm_read == 0 && ($this->m_aec_read == 0 || $this->m_aec_read == &umap_AddressEventCount_u64__cur)))\n'
+                  '__CPROVER_ensures($this == $1 || (($this->m_aec_read == 0) == ($this->base.m_address_event_counts.n == 0)))\n')
         return c
     return gen
 
@@ -217,6 +218,28 @@ for uid, mn, rd in (('blk.copy_assign', '_ZN4CDNS9CdnsBlockaSERS0_', False), ('b
                       note='copy assignment of a block: every table and item array of the copy has the entries of the source (each table through BlockTable\'s copy assignment, '
                            'btr.<T>.copy_assign), preamble, statistics and parameters are copied, the source is not written (frame)'
                            + ('; the copy\'s read positions restart on the copy\'s own containers' if rd else '')))
+
+def ctor_contract(read):
+    def gen(ast, L, tf):
+        c = copy_contract(read)(ast, L, tf)
+        # a constructor is lowered as a function returning the object: $1 is the source (first parameter), the new object is $ret
+        c = c.replace('__CPROVER_requires(__CPROVER_w_ok($this, sizeof(*$this)) && __CPROVER_r_ok($1, sizeof(*$1)) && g_exc == 0)', '__CPROVER_requires(__CPROVER_r_ok($1, sizeof(*$1)) && g_exc == 0)')
+        c = c.replace('__CPROVER_assigns(__CPROVER_object_whole($this), umap_AddressEventCount_u64__cur)', '__CPROVER_assigns(umap_AddressEventCount_u64__cur)')
+        c = c.replace('__CPROVER_ensures(g_exc == 0 && $ret == $this)', '__CPROVER_ensures(g_exc == 0)')
+        c = c.replace('$this == $1 || ', '').replace('$this->', '$ret.')
+        return c
+    return gen
+
+
+for uid, mn, rd, mv in (('blk.copy_ctor', '_ZN4CDNS9CdnsBlockC1ERS0_', False, False), ('blk.read_copy_ctor', '_ZN4CDNS13CdnsBlockReadC1ERS0_', True, False),
+                        ('blk.move_ctor', '_ZN4CDNS9CdnsBlockC1EOS0_', False, True), ('blk.read_move_ctor', '_ZN4CDNS13CdnsBlockReadC1EOS0_', True, True)):
+    rec = 'CdnsBlockRead' if rd else 'CdnsBlock'
+    UNITS.append(Unit(uid, ('@' + mn, None), contract=ctor_contract(rd), prelude=P, pre_c=PRE_C, extern_records=EXT,
+                      stubs=['BlockTable_[A-Za-z]+__op_assign__p_bt_[A-Za-z]+', 'seq_[A-Za-z0-9_]+__assign', 'umap_[A-Za-z0-9_]+__(assign|begin)'],
+                      replace=['blk.read_copy_assign' if rd else 'blk.copy_assign'], auto_inline=ACC_AUTO,
+                      extra_c='struct seq_u8 g_OpCodesDefault; struct seq_u16 g_RrTypesDefault;\n',
+                      setup='  static struct %s src;\n' % rec, args=['&src'], props=['C19'], timeout=600,
+                      note='%s constructor of a block: the new block has the content of the source (through the copy assignment above)%s' % ('"move"' if mv else 'copy', '; read positions start on its own containers' if rd else '')))
 
 from item_units import TRUSTED_BASE as _TB, ASSUMPTIONS as _AS
 TRUSTED_BASE = _TB + ['A7 BlockTable<T> as seen by CdnsBlock: a sequence in index order with size(); std::unordered_map iteration visits every entry once']
